@@ -72,10 +72,12 @@ prop("C20", "The --backup write protocol never loses the original", "fault_enume
 
 
 prop("C15", "Output is a function of source and configuration only", "other",
-     ["U05", {"unit": "U23", "only": r"^format_input_inner"}],
+     ["U05", {"unit": "U23", "only": r"^format_input_inner|^Session::format"}, {"unit": "U04", "only": r"does not depend on the order"}],
      [{"clause": "the session summary (ReportedErrors::add) is a field-wise OR: commutative, associative, idempotent, so the final flags do not depend on the order of the files", "status": "proved", "by": "U05 (Kani, complete)"},
       {"clause": "the exit status of a multi-file invocation is the maximum of the single-file statuses (file and stdin entry points)", "status": "proved", "by": "U05 (Kani, complete)"},
       {"clause": "override_config runs the closure under the local configuration and restores the session configuration afterwards (for any closure that does not itself assign `config`)", "status": "proved", "by": "U05 (Kani, complete)"},
+      {"clause": "every root of one session is judged by its own configuration (required_version), whatever was formatted before it", "status": "bounded", "by": "U23 (session histories of three roots)"},
+      {"clause": "the printed diagnostics do not depend on the order in which files were reported nor on a per-process hash seed", "status": "bounded", "by": "U04 (same report content appended in 20 different orders)"},
       {"clause": "fresh ParseSess per input, environment / working-directory independence, stdin-vs-path equality of the bytes, per-file reports equal to single-file runs", "status": "not_decided", "by": "-"}],
      "Only the state that survives between inputs of one session is within reach of contracts: the error summary, the exit-code formula and the config swap. They are loop-free functions over booleans and "
      "two words, so a Kani harness over fully symbolic inputs is a complete proof. Whether the formatter proper is deterministic is not decided by this technique.",
@@ -210,15 +212,16 @@ prop("C01", "Formatting preserves the meaning of the program", "other",
      statement_clauses={"U18": "No identifier, literal, operator, keyword, lifetime, visibility, attribute or doc comment is otherwise added, dropped, reordered or altered, inside macro invocations and macro definitions as well as in ordinary code"})
 
 prop("C04", "Skip-marked code and opted-out files are emitted verbatim", "other",
-     ["U17", "U24"],
+     ["U17", "U24", "U29"],
      [{"clause": "whole-file opt-out decision: skip attribute / skip_children / ignore / @generated (should_skip_module) — formula taken from the statement equals the code for every file input", "status": "proved", "by": "U17 (Kani, complete over all boolean combinations)"},
       {"clause": "the same decision end-to-end through the real format_input_inner / format_project / should_skip_module / is_generated_file / IgnorePathSet on recording shims: opted-out files never reach the emitter; disable_all_formatting returns before anything runs and echoes stdin byte for byte", "status": "bounded", "by": "U17 native (2048 combinations) — KNOWN FINDING: stdin + @generated"},
       {"clause": "@generated is looked for in the first generated_marker_line_search_limit lines only", "status": "bounded", "by": "U17 native"},
       {"clause": "rustfmt::skip::macros / rustfmt::skip::attributes name scoping: skip(name) holds exactly for the names added (or all), monotone, All absorbing", "status": "bounded", "by": "U17 native (whole file skip.rs)"},
       {"clause": "a #[rustfmt::skip] item is pushed verbatim and the line range recorded for it is exactly its output lines", "status": "bounded", "by": "U24"},
-      {"clause": "every node kind (expression, field, variant, match arm ...) returns its source snippet when it carries the attribute; cfg_attr / deprecated rustfmt_skip spellings (contains_skip over real ast::Attribute)", "status": "not_decided", "by": "-"}],
+      {"clause": "every spelling of the attribute: contains_skip is true exactly for rustfmt::skip, the deprecated rustfmt_skip and either of them inside (nested) cfg_attr; visit_attrs skips the item exactly when its WHOLE attribute list holds one (inner and outer spelling alike), reports DeprecatedAttr / BadAttr once each; skip::macros / skip::attributes yield exactly the listed names", "status": "bounded", "by": "U29 (real rustc attributes obtained by parsing generated source with the real rustc parser; all lists of <= 2/3 attributes over 14 spellings x inner/outer/mixed x requested style)"},
+      {"clause": "every node kind (expression, field, variant, match arm ...) returns its source snippet when visit_attrs / contains_skip says so", "status": "not_decided", "by": "-"}],
      "Decision tables proved / enumerated; the per-node verbatim copying inside the rewriters is not decided.",
-     statement_clauses={"U17": "A file that opts out as a whole (inner skip attribute, disable_all_formatting, an ignore match, or an @generated marker when generated files are excluded) is neither changed nor reported as differing", "U24": "appear in the output with their original bytes"})
+     statement_clauses={"U17": "A file that opts out as a whole (inner skip attribute, disable_all_formatting, an ignore match, or an @generated marker when generated files are excluded) is neither changed nor reported as differing", "U24": "appear in the output with their original bytes", "U29": "carrying #[rustfmt::skip] (directly or via cfg_attr, or the deprecated rustfmt_skip)"})
 
 prop("C03", "Comments are never silently dropped", "other",
      ["U10", "U11"],
